@@ -507,18 +507,24 @@ Definition complete_parens (ts : list tok) : list tok :=
   repeat (TSym OpenParens) (n_close ts) ++ ts.
 
 (* Least fuel with a non-fuel outcome = depth of the deepest chain of nested
-   model calls (loop iterations included: each iteration of a Rust loop is
-   one model call).  Linear search; [run] is monotone in fuel
-   (ParserProofs.run_mono), so the first hit is the least. *)
-Fixpoint least_fuel_from (budget : nat) (f : nat) (c : call) (ts : list tok) : option nat :=
-  match budget with
-  | O => None
-  | S b =>
-    match run f c ts with
-    | PFuel => least_fuel_from b (S f) c ts
-    | _ => Some f
-    end
+   model calls (an upper bound of the native recursion depth: each iteration
+   of a Rust loop is one more model call, a Rust call is exactly one).
+   Bisection between 0 (always out of fuel) and [fuel_for] (always enough,
+   ParserBasics.run_total); [run] is monotone in fuel
+   (ParserBasics.run_mono), so the boundary found is the least. *)
+Definition is_fuel {A : Type} (r : pres A) : bool :=
+  match r with PFuel => true | _ => false end.
+
+Fixpoint bisect (n lo hi : nat) (c : call) (ts : list tok) : nat :=
+  match n with
+  | O => hi
+  | S n' =>
+    if (hi - lo <=? 1)%nat then hi
+    else
+      let mid := (lo + (hi - lo) / 2)%nat in
+      if is_fuel (run mid c ts) then bisect n' mid hi c ts
+      else bisect n' lo mid c ts
   end.
 
-Definition fuel_consumed (ts : list tok) : option nat :=
-  least_fuel_from (S (fuel_for CExpression ts)) 0 CExpression ts.
+Definition fuel_consumed (ts : list tok) : nat :=
+  bisect (fuel_for CExpression ts) 0 (fuel_for CExpression ts) CExpression ts.
